@@ -30,10 +30,10 @@ add("C16", EXACT + "; shadow classifier proves every branch of the multi-word di
     "Trusts the oracle crate and rustc; the shadow classifier is used for labelling only.", "5/C16")
 
 add("C06", "property-based testing (proptest) with grammar-derived, boundary-constructed, near-miss and arbitrary strings against a character-level reference parser; guard-page placement turns out-of-bounds reads into faults",
-    "Exploration: from_str / TryFrom<&str|String> / str_to_dec compared with a reference parser with big-integer accumulation on generated strings; inputs are additionally parsed from buffers ending at / starting after a PROT_NONE page so reads outside the string fault (SIGSEGV handler writes the replay).",
+    "Exploration: from_str / TryFrom<&str|String> / str_to_dec compared with a reference parser with big-integer accumulation on generated strings; inputs are additionally parsed from buffers ending at / starting after a PROT_NONE page so reads outside the string fault (SIGSEGV handler writes the replay), and at all 8 start alignments between digit bytes; digit strings at machine-word boundaries with the radix point at every position.",
     "Trusts the reference parser (oracle crate), mmap/mprotect semantics, rustc; page-granular detection of over-reads in this tier.", "5/C06")
 add("C07", "property-based round-trip and differential testing (proptest) against a reference formatter",
-    "Exploration: to_string / String::from / Display / Debug text / serde_json compared with a reference string built from std integer digits; parsing it back must give the identical (coefficient, scale).",
+    "Exploration: to_string / String::from / Display (format!, write! into fmt::Write and io::Write, Box<dyn Display>) / Debug text under formatting flags and inside derived structs / serde_json compared with a reference string built from std integer digits; parsing it back must give the identical (coefficient, scale).",
     "Trusts the reference formatter, std integer formatting, serde_json, rustc.", "5/C07")
 add("C10", EXACT,
     "Exploration: %, %= and checked_rem in all operand forms against the truncated-division identity computed on aligned big integers; stepwise and overflow exits constructed.",
@@ -47,11 +47,11 @@ add("C18", "generated programs: batches of grammar-generated literals compiled t
     "Trusts rustc's per-invocation proc-macro error reporting and cargo; one compiler version; a blank after the sign is not part of the token text.", "5/C18")
 
 add("C08", EXACT + "; laws (reflexive, antisymmetric, transitive) checked on generated triples; rkyv round trip and archived comparisons",
-    "Exploration: all comparison operators on generated pairs/triples (same value at different scales, adjacent values, alignment overflow, all 9 integer types in both orders) against the sign of the exact difference; rkyv archive/deserialize identity and archived comparisons.",
-    "Trusts the oracle crate, rkyv's validation, rustc; packed ArchivedDecimal impl is exercised by C20's packed builds.", "5/C08")
+    "Exploration: all comparison operators on generated pairs/triples (same value at different scales, adjacent values, alignment overflow, all 9 integer types in both orders) against the sign of the exact difference; rkyv archive/deserialize identity and archived comparisons; reference forms, std::cmp::min/max, sort, Iterator::max/min.",
+    "Trusts the oracle crate, rkyv's validation, rustc; the packed ArchivedDecimal impl is exercised by the third harness build and C20's packed builds.", "5/C08")
 add("C09", "property-based testing (proptest): all equal-valued representations of each generated value must hash identically (std DefaultHasher) and to the hash of the reduced ratio computed by Euclid on big integers",
-    "Exploration: Hash/Eq consistency across 1..19 representations per value, HashSet membership, as_integer_ratio/numerator/denominator against an independent gcd.",
-    "Trusts std's DefaultHasher as a representative Hasher, the oracle crate, rustc.", "5/C09")
+    "Exploration: Hash/Eq consistency across 1..19 representations per value, HashSet membership, a recording Hasher (the write_* call sequence must not depend on the representation), element-wise equal slices through hash_slice / Vec keys, as_integer_ratio/numerator/denominator against an independent gcd.",
+    "Agreement with the (numerator, denominator) pair is checked under std's DefaultHasher; trusts the oracle crate, rustc.", "5/C09")
 add("C12", "property-based testing (proptest) with constructed mid-points between adjacent floats; two independent oracles (std's correctly rounded parser and exact big-integer round-half-even) must both accept",
     "Exploration: f64::from / f32::from compared bit-for-bit with the correctly rounded result on generated decimals incl. exact ties and +-1 decimal ulp around mid-points.",
     "Trusts std's dec2flt (cross-checked per case against the exact oracle), the oracle crate, rustc.", "5/C12")
@@ -65,11 +65,11 @@ add("C15", EXACT + "; enumerated power-of-ten boundaries and exhaustive 8/16-bit
     "Exploration with enumerated sub-spaces: floor/ceil/trunc/fract/abs/neg/magnitude/predicates and the num-traits impls against big-integer definitions; log10 helpers exhaustively for u8/u16 and on every power of ten +-1.",
     "Trusts the oracle crate and rustc.", "5/C15")
 add("C17", "differential / metamorphic property-based testing (proptest): every macro-stamped reference and assign form against the by-value form, integer operand against Decimal::from(integer)",
-    "Exploration: ~15 operations x 9 integer types x 2 positions x 4-6 forms executed explicitly per case; a label per impl family proves all were executed; stated exception for multiplication by one honoured.",
+    "Exploration: ~15 operations x 9 integer types x 2 positions x 4-6 forms executed explicitly per case; a label per impl family proves all were executed; &a op &a on one object against two equal objects; stated exception for multiplication by one honoured.",
     "No reference oracle here (C01-C04/C10 give the absolute values); one open known finding (integer/integer div_rounded with n > 18) excluded by signature.", "5/C17")
 add("C19", "model-based (stateful) property-based testing: generated lock-step schedules over real OS threads against a per-thread mode model, sequences shrink as one value",
-    "Exploration over generated schedules (up to 4 threads x 40 steps): set_default/default/rounding operations executed by real threads in a harness-owned order; every result must match the issuing thread's model mode, new threads start with HalfEven. Each schedule runs in a fresh process; one in 16 runs in a generated program built against fpdec with default-features = false; thread-exit destructors are probed too.",
-    "Sampled interleavings (deterministic lock-step), not exhaustive; timing-dependent races on weak memory are out of reach; trusts the oracle crate.", "5/C19")
+    "Exploration over generated schedules (up to 4 threads x 40 steps): set_default/default/rounding operations executed by real threads in a harness-owned order; every result must match the issuing thread's model mode, new threads start with HalfEven. Each schedule runs in a fresh process; threads may exit (and be replaced) in the middle of a schedule, thread-exit destructors are probed, a final phase lets all threads of the schedule round truly concurrently; one schedule in 16 runs in a generated program built against fpdec with default-features = false.",
+    "Sampled interleavings (deterministic lock-step plus an OS-scheduled concurrent phase), not exhaustive; a failure of the concurrent phase may need several replays to show again; trusts the oracle crate.", "5/C19")
 add("C20", "differential fuzzing across builds: the same generated cases are evaluated by driver processes compiled under several profiles / feature sets and compared line by line; the reference build is also compared with the exact oracle",
     "Exploration: ~60 public operations per case over the union of the C01-C06/C10 generators; quick = dev, release, release+packed; thorough = all 8 combinations of {opt 0/3} x {checks on/off} x {packed on/off}.",
     "One compiler and target; trusts cargo profiles to control overflow-checks/debug-assertions; trusts the oracle crate.", "5/C20")
@@ -83,8 +83,10 @@ def main():
             t, text, note, ref = CHECKS[i]
             if i in ("C01","C02","C03","C04","C05","C06","C10","C12","C13","C16"):
                 t += "; thorough tier adds a coverage-guided libFuzzer/ASan campaign (bin/fuzz) with the same oracle in-target"
+            if i in ("C01", "C02", "C03", "C04", "C10"):
+                t += "; follow-up cases repeat an operand of the previous case on the same thread (state kept between calls)"
             if i not in ("C18", "C20"):
-                t += "; every run is repeated with the same seed by two further harness builds (without overflow checks / debug assertions; the same against fpdec with feature packed and default-features = false)"
+                t += "; every run is repeated with the same seed by three further harness builds (overflow-checks/debug-assertions off/off, on/off and off/on; the mixed ones against fpdec with feature packed and default-features = false)"
             checks.append({
                 "property_id": i,
                 "quick_cmd": f"bin/check {i} --tier quick",
